@@ -208,6 +208,7 @@ var Mutants = map[string][]Mutant{
 		{"Close retags one end only", "path.go", `\t\tp\.d\[len\(p\.d\)-1\] = CloseCmd\n\t\tp\.d\[len\(p\.d\)-cmdLen\(LineToCmd\)\] = CloseCmd\n`, "\t\tp.d[len(p.d)-1] = CloseCmd\n", "E2.retag"},
 	},
 	"C11": {
+		{"a repeated close forgets the removed sub-path", "path.go", `(?s)\t\t\tif wasEmptyClosed \{.*?\} else \{\n\t\t\t\t(p1 = p\.StartPos\(\)\n)\t\t\t\t(p\.Close\(\)\n)\t\t\t\t(emptyClosed = !p\.Pos\(\)\.Equals\(p1\)\n)\t\t\t\}\n`, "\t\t\t_ = wasEmptyClosed\n\t\t\t${1}\t\t\t${2}\t\t\t${3}", "E11.empty-close-keeps-position"},
 		{"smooth cubic after a relative smooth cubic is not reflected", "path.go", `prevCmd == 'C' \|\| prevCmd == 'c' \|\| prevCmd == 'S' \|\| prevCmd == 's'`, "prevCmd == 'C' || prevCmd == 'c' || prevCmd == 'S'", "E11.svg-smooth"},
 		{"parser forgets the position of an empty closed sub-path (reverts fix db9f29f)", "path.go", `\t\t\temptyClosed = !p\.Pos\(\)\.Equals\(p1\)\n`, "", "E11.empty-close-keeps-position"},
 		{"quoted url() reference sliced without its own length test (reverts fix 379229e)", "svg.go", `\} else if 7 < len\(val\) \{\n[^\n]*\n(\t\t\t\treturn val\[6 : len\(val\)-2\])`, "} else {\n$1", "E4.slice-length-guarded"},
@@ -389,6 +390,7 @@ var Mutants = map[string][]Mutant{
 		{"vertical fonts written as horizontal", "renderers/pdf/writer.go", `w\.writeFonts\(w\.fontsV, true\)`, `w.writeFonts(w.fontsV, false)`, "E5.fontmaps"},
 	},
 	"C19": {
+		{"a repeated close forgets the removed sub-path", "path.go", `(?s)\t\t\tif wasEmptyClosed \{.*?\} else \{\n\t\t\t\t(p1 = p\.StartPos\(\)\n)\t\t\t\t(p\.Close\(\)\n)\t\t\t\t(emptyClosed = !p\.Pos\(\)\.Equals\(p1\)\n)\t\t\t\}\n`, "\t\t\t_ = wasEmptyClosed\n\t\t\t${1}\t\t\t${2}\t\t\t${3}", "E11.empty-close-keeps-position"},
 		{"rgba premultiplied before the alpha is parsed", "svg.go", `(\t\tcol\.A = svg\.parseAlphaComponent\(comps\[3\]\)\n)(\t\tcol\.R = [^\n]*\n\t\tcol\.G = [^\n]*\n\t\tcol\.B = [^\n]*\n)`, "${2}${1}", "E11.zero-factor"},
 		{"parser forgets the position of an empty closed sub-path (reverts fix db9f29f)", "path.go", `\t\t\temptyClosed = !p\.Pos\(\)\.Equals\(p1\)\n`, "", "E11.empty-close-keeps-position"},
 		{"viewBox origin put into the coordinate view", "svg.go", `m := Identity\.Scale\(width/viewbox\[2\], height/viewbox\[3\]\)\.Translate\(-viewbox\[0\], -viewbox\[1\]\)\n\t\tsvg\.ctx\.SetView\(m\)`, "m := Identity.Scale(width/viewbox[2], height/viewbox[3])\n\t\tsvg.ctx.SetView(m)\n\t\tsvg.ctx.SetCoordView(Identity.Translate(-viewbox[0], -viewbox[1]))", "E11.viewbox-in-one-matrix"},
